@@ -263,6 +263,7 @@ def storeRole (c : RoleCfg) : RoleRes :=
   if tt = .batch && c.period != 0 then .err "role-batch-period" else
   if tt = .batch && c.renewable then .err "role-batch-renewable" else
   if tt = .batch && c.emax != 0 then .err "role-batch-emax" else
+  if tt = .batch && c.numUses != 0 then .err "role-batch-uses" else     -- repair F85
   .ok { allowed := sanitize (trimStrings c.allowed) false
         disallowed := removeDuplicates (trimStrings c.disallowed)
         allowedGlob := sanitize (trimStrings c.allowedGlob) false
@@ -415,9 +416,24 @@ def endpointRoleName : Endpoint → Name
   | .withRole n _ => n
   | _ => []
 
-/-- the batch-type guard: only the FIRST non-empty of explicit_max_ttl / num_uses / period is examined
-    (a Go `switch` with three cases) -/
+/-- the batch-type guard: explicit_max_ttl, num_uses and period are each examined (independent tests since the repair
+    F85; they had been the arms of one `switch`, so the first non-empty field hid the others); a value that does not
+    parse answers at once -/
 def batchGuard (rq : Req) : Option String :=
+  match rq.emax with
+  | .bad => some "batch-emax-parse"
+  | .val d => if d != 0 then some "batch-has-emax" else batchGuardRest rq
+  | .absent => batchGuardRest rq
+where
+  batchGuardRest (rq : Req) : Option String :=
+    if rq.numUses != 0 then some "batch-has-uses" else
+    match rq.period with
+    | .bad => some "batch-period-parse"
+    | .val d => if d != 0 then some "batch-has-period" else none
+    | .absent => none
+
+/-- the guard as it was: only the FIRST non-empty of explicit_max_ttl / num_uses / period examined -/
+def batchGuardFirstOnly (rq : Req) : Option String :=
   if rq.emax != .absent then
     match rq.emax with
     | .bad => some "batch-emax-parse"
@@ -555,6 +571,8 @@ def createMid (env : Env) (par : Parent) (ep : Endpoint) (rq : Req) : Res :=
   match aliasCheck role rq with
   | some e => .err e
   | none =>
+  -- role block: the use count the token ends up with (request and role merged) — a batch token cannot carry one
+  if role.isSome && batch && numUsesOf role rq != 0 then .err "batch-has-uses" else
   if rq.id != .none && !env.sudo then .err "id-sudo" else
   if rq.id != .none && env.nsChild then .err "id-ns" else
   match resolvePolicies env role par rq.policies rq.noDefault with
